@@ -31,13 +31,15 @@ CHECKS = {
           "through two connections). After every step: a nameplate row disappears only by its last release or with its "
           "mailbox; every ghost holder still has its claimed side row and the same mailbox; gone after the last release; "
           "release always answered released; release by a non-holder and a refused re-claim change nothing; listings "
-          "contain every held nameplate once and nothing dead.",
+          "contain every held nameplate once and nothing dead. A second, file-backed exploration puts a restart anywhere "
+          "after both sides claimed (acknowledged claims and releases must survive it).",
      tech="explicit-state BFS of the implementation with a ghost holder-set monitor"),
  "C08": dict(cat="model_checking", ref="DESIGN.md §4 C08",
      text="Explicit-state BFS over claim/release/open/add/close by sides A,B over up to 5 connections, nameplates 1,2 and "
           "client-chosen mailboxes. A mailbox row disappears only when its last open side closes; every close is answered "
           "closed without internal error; the last close leaves no row of that mailbox/nameplate and changes no other row; "
-          "a re-sent close changes nothing; remaining subscribers keep delivery and messages.",
+          "a re-sent close changes nothing but the activity stamp; remaining subscribers keep delivery and messages. Two "
+          "narrow seeded explorations: closes arriving after a restart, and two/three connections of one side on one mailbox.",
      tech="explicit-state BFS of the implementation with an open-side ghost and before/after row comparison"),
  "C04": dict(cat="model_checking", ref="DESIGN.md §3.5, §4 C04",
      text="(a) BFS over histories of allocate (rank first/last/mid in the sorted candidate list), explicit claims of numeric "
@@ -51,13 +53,16 @@ CHECKS = {
      text="BFS on file-backed databases, with and without a usage db, 3 sides (crowded paths), sweeps; the oracle runs inside "
           "sendMessage: at every outbound frame a brand-new sqlite3 connection to each database file must read exactly what "
           "the server's own connection reads, and what the frame acknowledges (claimed/allocated/message) must be visible "
-          "to that reader; PRAGMA synchronous >= FULL and a persistent journal are asserted.",
+          "to that reader; PRAGMA synchronous >= FULL and a persistent journal are asserted. A seeded two-app exploration "
+          "covers sweeps that prune one app's channel and keep another's.",
      tech="explicit-state BFS of the implementation with an independent second database reader at every outbound frame"),
  "C10": dict(cat="fault_enumeration", ref="DESIGN.md §3.4, §4 C10",
      text="BFS over histories on file-backed databases (without / with usage db); during the last event of every history the "
           "directory image before every SQL statement and around every commit is captured; every distinct image must pass "
           "the start-up integrity check, hold no duplicate records, give the re-sent in-flight claim/release/open/close the "
-          "uncrashed answer and rows, and - nobody returning - be swept empty over E+3P without internal errors.",
+          "uncrashed answer and rows, and - nobody returning - be swept empty over E+3P without internal errors. Plus a "
+          "family of constructed states (1-8 nameplates x 1-2 sides, standalone mailboxes with messages) whose expiry "
+          "sweeps delete many rows: every statement/commit boundary of those sweeps is a crash point.",
      tech="explicit-state BFS + exhaustive crash-image enumeration (statement/commit boundaries) with both continuations on the implementation"),
  "C17": dict(cat="model_checking", ref="DESIGN.md §4 C17",
      text="BFS where from every reachable protocol state of 2-3 connections every command of the FULL alphabet is tried "
@@ -76,7 +81,9 @@ CHECKS = {
  "C11": dict(cat="model_checking", ref="DESIGN.md §3.2, §4 C11",
      text="Lockstep product: every prefix (<= d1 commands) x split x every continuation (<= d2 events incl. sweeps). At the "
           "split all connections drop; world K keeps the Server object, world R is rebuilt from the database files at the "
-          "same sweep instant. All later frames, logged sweep errors and channel rows must be identical.",
+          "same sweep instant. All later frames, logged sweep errors and channel rows must be identical. A narrow second "
+          "exploration starts from two deep seeded prefixes (a mailbox that expired before the restart and is re-opened "
+          "after it; two connections of one side bound after the restart, one gone again).",
      tech="explicit-state BFS over a product of two real servers (kept vs. restarted)"),
  "C12": dict(cat="model_checking", ref="DESIGN.md §3.3, §4 C12",
      text="Timed exploration through the real TimerService on a virtual clock: every non-decreasing placement of 11 command "
@@ -111,7 +118,8 @@ CHECKS = {
  "C18": dict(cat="model_checking", ref="DESIGN.md §3.2, §4 C18",
      text="Lockstep product of 6 (quick, pairwise-covering) / 12 (thorough, all) configurations of listing x usage-db x blur "
           "driven by one event stream incl. sweeps: all frames except the `nameplates` payload and all channel rows "
-          "identical; `list` = [] when disallowed, = stored set of the caller's app otherwise.",
+          "identical; `list` = [] when disallowed, = stored set of the caller's app otherwise. Binds carry a client_version; "
+          "a second, file-backed product of 4 configurations goes through a restart + bind + sweep.",
      tech="explicit-state BFS over a product of 6-12 real servers in different configurations"),
  "C19": dict(cat="fault_enumeration", ref="DESIGN.md §3.4, §4 C19",
      text="Every file-system call, sqlite connect, SQL statement, commit and close of first-time creation (4 entry points, "
@@ -127,7 +135,8 @@ CHECKS = {
  "C02": dict(cat="model_checking", ref="DESIGN.md §4 C02",
      text="Explicit-state BFS over the real server code: every history (<= depth) of connections/binds/open/add/close/"
           "disconnect/sweep/restart over 2 apps, 2 sides, 2 mailboxes, up to 4 connections, from the initial state and "
-          "from two seeded states (a restarted server holding rows; two connections of one side on one mailbox); on every "
+          "from seeded states (a restarted server holding rows; two connections of one side on one mailbox; after a restart "
+          "two connections of one side bound and one gone again - narrow alphabet); on every "
           "accepted add the set of connections that received a message frame must equal the ghost subscription set, "
           "exactly once each, with the adder's bound side (the add command itself carries a different, client-chosen side).",
      tech="explicit-state BFS of the implementation (replay-based, canonical-state dedup) with a ghost-subscription monitor"),
